@@ -84,6 +84,7 @@ type gResult struct {
 	R    string `json:"r"` // ok | mismatch | inconclusive
 	Mode string `json:"mode,omitempty"`
 	Step int    `json:"step"`
+	A    string `json:"a,omitempty"` // action of the step
 	Cls  string `json:"cls,omitempty"`
 	What string `json:"what,omitempty"`
 	Exp  string `json:"exp,omitempty"`
@@ -871,6 +872,9 @@ func TestVerifGorpReplay(t *testing.T) {
 						r = gReplay(hist, mode, &defs, &st)
 					}()
 					r.I = j.i
+					if r.Step >= 0 && r.Step < len(hist) {
+						r.A = hist[r.Step].A
+					}
 					results <- r
 				}
 			}
